@@ -30,19 +30,35 @@ def fmt_dim(d):
     return {"C": "const", "Z": "0"}.get(d, f"L^{d}")
 
 
+def _owner(ctx, q, depth=0):
+    """the function a finding is attributed to: a private helper that a later change cut out of exactly one function (it
+    is not a name of the baseline, and one function calls it) counts as part of that function -- so that a known finding
+    whose statement moved into such a helper is still the known finding, and a new one is reported under the function
+    a reader knows"""
+    from verifkit.known_names import KNOWN
+    fn = ctx.model.funcs.get(q)
+    if fn is None or depth > 3 or fn.name in KNOWN or not fn.name.startswith("_") or (fn.name.startswith("__") and fn.name.endswith("__")):
+        return q
+    callers = sorted(c for c in ctx.model.funcs if c != q and q in ctx.graph.callees(c))
+    if len(callers) != 1:
+        return q
+    return _owner(ctx, callers[0], depth + 1)
+
+
 def r12_1(ctx):
     D = dims(ctx)
     out = Outcome("R12.1", "every comparison / additive expression / round / limit_denominator is homogeneous in the "
                            "unit of length (or compares with literal 0 / inf)", floor=40)
     bad_by_key = {}
     for (q, what, a, b, ln, txt) in D.ALL:
-        bad_by_key.setdefault((q, what, a, b), []).append((ln, txt))
+        bad_by_key.setdefault((_owner(ctx, q), q, what, a, b), []).append((ln, txt))
     flagged = set()
-    for (q, what, a, b), occ in sorted(bad_by_key.items()):
+    for (owner, q, what, a, b), occ in sorted(bad_by_key.items()):
         fn = ctx.model.funcs[q]
         flagged.add(q)
-        out.bad(q, f"{what}: {fmt_dim(a)} vs {fmt_dim(b)}", where=f"{fn.path}:{occ[0][0]}",
-                detail=f"{len(occ)} statement(s), e.g. `{occ[0][1]}` -- the decision changes with the unit of length")
+        moved = f" (in `{q}`, a private helper cut out of it)" if owner != q else ""
+        out.bad(owner, f"{what}: {fmt_dim(a)} vs {fmt_dim(b)}", where=f"{fn.path}:{occ[0][0]}",
+                detail=f"{len(occ)} statement(s), e.g. `{occ[0][1]}`{moved} -- the decision changes with the unit of length")
     for q, st in sorted(D.FN_STATS.items()):
         n = st["compare"] + st["addsub"]
         if n and q not in flagged:
